@@ -93,7 +93,7 @@ history(
     "self._line >= old(self._line)",
 )
 
-SB_MOD = ["stream._index", "stream._line", "stream._column"]
+SB_MOD = ["stream._index", "stream._line", "stream._column", "fresh"]  # positions / tokens / error objects are allocated
 ERR = {"TokenizeError": ["err_ok(exc, len(old(stream._buffer)))"]}
 P = ["C07", "C01"]
 
@@ -453,7 +453,7 @@ contract(
     # every token handed on carries positions inside the text (index len(text) = end of text)
     ensures=["forall(0, len(result), lambda i: pos_ok(result[i].start, len(text) + 1))"],
     raises={"TokenizeError": ["err_ok(exc, len(text) + 1)"]},
-    modifies=["state.has_comments"],
+    modifies=["state.has_comments", "fresh"],
     loops={
         "while True": dict(
             invariant=[
@@ -472,7 +472,7 @@ contract(
     requires=[],
     ensures=[],
     raises={"TokenizeError": ["err_idx_ok(exc, len(text) + 1)"]},
-    modifies=["state.has_comments"],
+    modifies=["state.has_comments", "fresh"],
     loops={"for token in _tokenize(text, state)": dict(invariant=[])},
     properties=P,
 )
